@@ -2,7 +2,7 @@
     Model: Core/Run.v ([part_run]/[part_paths], [path_run]/[path_paths] mirror jaq-core/src/path.rs),
     Val/Index.v (mirrors the indexing primitives of jaq-json/src/lib.rs). *)
 From Coq Require Import List ZArith.
-From JaqV Require Import Base.Stream Val.Val Val.Err Val.Index Core.Syntax Core.Natives Core.Run Proofs.PathLaws Proofs.GetpathLaws Proofs.MonadLaws Proofs.UpdateRules Proofs.PathsProject.
+From JaqV Require Import Base.Stream Val.Val Val.Err Val.Index Core.Syntax Core.Natives Core.Run Proofs.PathLaws Proofs.GetpathLaws Proofs.MonadLaws Proofs.UpdateRules Proofs.UpdateFolds Proofs.PathsProject.
 Import ListNotations.
 
 (** one path part: evaluating for paths yields, in order, exactly the values that evaluating for values yields,
@@ -148,3 +148,37 @@ Theorem path_values_are_the_outputs : forall d nr defs, Forall ok_term defs ->
   smap fst (paths d nr defs n k c (x, p)) = run d nr defs n k c x.
 Proof. exact PathsProject.paths_values_exact. Qed.
 Print Assumptions path_values_are_the_outputs.
+
+(** updates through definitions, filter arguments and folds (Proofs/UpdateFolds.v): *)
+(** [f(args) |= u]: a definition is updated through its body, for every combination of its variable arguments in turn *)
+Theorem update_through_a_definition : forall d nr defs n id args skip ct c v f body, nth_error defs id = Some body ->
+  update d nr defs (S n) (KCallDef id args skip ct) c v f
+  = sreduce (bind_vars d nr defs n args (skip_vars skip c) c v) v (fun c' x => update d nr defs n body c' x f).
+Proof. exact UpdateFolds.update_call. Qed.
+Print Assumptions update_through_a_definition.
+
+(** [g |= u] for a filter argument g: the argument's term is updated in the context it was written in *)
+Theorem update_through_a_filter_argument : forall d nr defs n i c v f g fvars, nth_bind c i = Some (BFun g fvars) ->
+  update d nr defs (S n) (KVar i) c v f = update d nr defs n g (with_vars fvars c) v f.
+Proof. exact UpdateFolds.update_filter_argument. Qed.
+Print Assumptions update_through_a_filter_argument.
+
+(** [reduce/foreach xs as $x (init; upd) |= u] = [init |= (fold of upd over the bindings of xs)] ... *)
+Theorem update_through_a_fold : forall d nr defs n xs pat init upd ft c v f,
+  update d nr defs (S n) (KFold xs pat init upd ft) c v f
+  = update d nr defs n init c v (fun x => fold_update d nr defs n ft upd x (run_and_bind d nr defs n xs c v pat) f).
+Proof. exact UpdateFolds.update_fold. Qed.
+Print Assumptions update_through_a_fold.
+
+(** ... where the fold hands the update inwards item by item: for reduce [upd[x1] |= (upd[x2] |= ... u)] - the update through
+    the nested-pipe expansion [init | upd[x1] | ... | upd[xn]] -, for foreach [upd[x1] |= (u | (upd[x2] |= (u | ...)))] *)
+Theorem fold_update_nests : forall d nr defs ft upd f cs n v,
+  fold_update d nr defs n ft upd v (of_list cs) f = UpdateFolds.nested d nr defs n ft upd cs f v.
+Proof. exact UpdateFolds.fold_update_is_nested. Qed.
+Print Assumptions fold_update_nests.
+
+Theorem reduce_update_of_two_items : forall d nr defs n upd f c1 c2 v,
+  fold_update d nr defs (S (S (S n))) Reduce upd v (of_list [c1; c2]) f
+  = update d nr defs (S (S n)) upd c1 v (fun x => update d nr defs (S n) upd c2 x f).
+Proof. exact UpdateFolds.update_reduce_two. Qed.
+Print Assumptions reduce_update_of_two_items.
